@@ -113,10 +113,17 @@ class QueryJudge:
                     else:
                         rep.count('l2_rows_differ')
                         if canon(out[1], case, self.ordered) == want:
-                            # the implementation is right and the machine is not: the machine misrepresents it
-                            rep.corr_disagreements.append({'case': surface.case_sexp(case), 'config': cfg_name,
-                                                           'evaluation': ev + 1, 'impl': sorted(out[1]),
-                                                           'l2_model': sorted(m2)})
+                            # the implementation is right and the machine is not: the machine misrepresents it - unless
+                            # the case lies in the machine's documented gap (several variables, cache on, a literal inside a
+                            # non-first operand of an and_/or_: the implementation keeps literal ids among the right-cache
+                            # keys, the machine does not, so the machine can hit - and run into C05-F1 - where the
+                            # implementation cannot); counted, not a disagreement
+                            if cfg_name.startswith('on') and len(case['vars']) > 1 and literal_in_a_right_operand(case):
+                                rep.count('l2_gap_literal_keys')
+                            else:
+                                rep.corr_disagreements.append({'case': surface.case_sexp(case), 'config': cfg_name,
+                                                               'evaluation': ev + 1, 'impl': sorted(out[1]),
+                                                               'l2_model': sorted(m2)})
                 if out[0] == 'exc':
                     self.violation(f'implementation raised {out[1]}: {out[2]} (caching {cfg_name}, evaluation {ev + 1})',
                                    case, expected=want)
